@@ -62,10 +62,10 @@ package stack
 //@ func (*Stack).Each
 //@   role f yield
 //@   requires s != nil
-//@   ensures  [C10] trace: exists m int :: 0 <= m && m <= len(s.list) && ncalls(f) == old(ncalls(f)) + m
-//@+       && (forall i int :: 0 <= i && i < m ==> callarg(f, old(ncalls(f)) + i) == view(s, i))
-//@+       && (forall i int :: 0 <= i && i < m - 1 ==> callret(f, old(ncalls(f)) + i))
-//@+       && (m < len(s.list) ==> m > 0 && !callret(f, old(ncalls(f)) + m - 1))
+//@   ensures  [C10] count: ncalls(f) >= old(ncalls(f)) && ncalls(f) - old(ncalls(f)) <= len(s.list)
+//@   ensures  [C10] args: forall i int :: 0 <= i && i < ncalls(f) - old(ncalls(f)) ==> callarg(f, old(ncalls(f)) + i) == view(s, i)
+//@   ensures  [C10] went: forall i int :: 0 <= i && i < ncalls(f) - old(ncalls(f)) - 1 ==> callret(f, old(ncalls(f)) + i)
+//@   ensures  [C10] stopped: ncalls(f) - old(ncalls(f)) < len(s.list) ==> ncalls(f) > old(ncalls(f)) && !callret(f, ncalls(f) - 1)
 //@   modifies calls(f)
 //@   loop 1: invariant idx: -1 <= i && i < len(s.list) && ncalls(f) == old(ncalls(f)) + (len(s.list) - 1 - i)
 //@   loop 1: invariant args: forall k int :: 0 <= k && k < len(s.list) - 1 - i ==> callarg(f, old(ncalls(f)) + k) == view(s, k) && callret(f, old(ncalls(f)) + k)
